@@ -7,14 +7,15 @@ int mem_zero_detect_sse(void *, size_t);
 int mem_zero_detect_avx(void *, size_t);
 int mem_zero_detect_avx2(void *, size_t);
 int mem_zero_detect_avx512(void *, size_t);
+int noarch_isal_zero_detect(void *, size_t); // alias layer of assembly-less builds (renamed by tools/genmk.py)
 }
 using namespace pbt;
 typedef int (*zfn)(void *, size_t);
 struct Var { const char *name; zfn fn; const char *level; };
 static const Var DIRECT[] = {{"mem_zero_detect_base", mem_zero_detect_base, "base"}, {"mem_zero_detect_sse", mem_zero_detect_sse, "sse"},
                              {"mem_zero_detect_avx", mem_zero_detect_avx, "avx"}, {"mem_zero_detect_avx2", mem_zero_detect_avx2, "avx2"},
-                             {"mem_zero_detect_avx512", mem_zero_detect_avx512, "avx512"}};
-static const int NDIRECT = 5;
+                             {"mem_zero_detect_avx512", mem_zero_detect_avx512, "avx512"}, {"noarch_isal_zero_detect", noarch_isal_zero_detect, "base"}};
+static const int NDIRECT = 6;
 
 static void run_case(int vi, size_t len, const kern::Placement &pl, uint32_t posseed, Ctx &c) {
 	zfn fn;
@@ -93,7 +94,7 @@ static void body_sweep(Tape &t, Ctx &c) {
 static void sweep(SweepSink &s) {
 	uint32_t maxlen = s.thorough() ? 1100 : 600;
 	for (uint32_t len = 0; len <= maxlen; len++)
-		for (uint32_t vi = 0; vi < (uint32_t) NDIRECT + 1; vi++) { // 5 kernels + dispatcher at the first level slot rotated below
+		for (uint32_t vi = 0; vi < (uint32_t) NDIRECT + 1; vi++) { // the kernels (incl. the noarch alias) + dispatcher at the first level slot rotated below
 			uint32_t v = vi < (uint32_t) NDIRECT ? vi : NDIRECT + (len % cpu::N_LEVELS);
 			if (!s.emit({v, len, 0, 0})) return;
 			if (!s.emit({v, len, 1, 0})) return;
@@ -157,8 +158,8 @@ static void body_huge(Tape &t, Ctx &c) {
 }
 static void sweep_huge(SweepSink &s) {
 	// every kernel and three dispatcher levels, all-zero and one planted byte; (the base kernel takes about a second per 4 GiB)
-	static const uint32_t V[] = {0, 1, 2, 3, 4, NDIRECT + 11, NDIRECT + 6, NDIRECT + 4, NDIRECT + 1};
-	for (uint32_t i = 0; i < 9; i++) {
+	static const uint32_t V[] = {0, 1, 2, 3, 4, 5, NDIRECT + 11, NDIRECT + 6, NDIRECT + 4, NDIRECT + 1};
+	for (uint32_t i = 0; i < 10; i++) {
 		if (!s.emit({V[i], i % 7, i % 4, 0})) return;
 		if (!s.emit({V[i], (i + 3) % 7, (i + 1) % 4, 1 + i % 3, i * 37, i % 3})) return;
 	}
